@@ -63,6 +63,26 @@ def gen_case(rng):
             "all": rng.random() < 0.5}
 
 
+def exhaustive_cases(polys):
+    """every polynomial of the TLC-emitted universe x four functions x all_solutions x three predicates, as dict and Matrix"""
+    out = []
+    for p in polys:
+        for fn, spin in sorted(FUNCS.items()):
+            quad = "q" in fn.split("_")[1]
+            for kind, labels in (("dict", ["a", (1, 2)]), (("QUSOMatrix" if spin else "QUBOMatrix") if quad else
+                                                           ("PUSOMatrix" if spin else "PUBOMatrix"), [0, 2])):
+                for allsol in (False, True):
+                    for vk, varg in (("true", []), ("label", [labels[0]]), ("parity", [])):
+                        out.append({"spin": spin, "kind": kind, "fn": fn, "labels": labels, "terms": pure_instantiate(p, labels),
+                                    "valid_kind": vk, "valid_arg": varg, "all": allsol})
+    return out
+
+
+def pure_instantiate(poly, pylabels):
+    m = {"L%d" % i: l for i, l in enumerate(pylabels)}
+    return {tuple(m[x] for x in k): c for k, c in poly.items()}
+
+
 def run_case(case, cid):
     import qubovert as qv
     from qubovert import utils
@@ -145,6 +165,12 @@ def run(tier, out, replay=None):
     thorough = tier == "thorough"
     try:
         cases = [gen_case(rng) for _ in range(15000 if thorough else 2500)]
+        from . import pure
+        polys, udesc = pure.universe("2f" if thorough else "2s", wd)
+        ex = exhaustive_cases(polys)
+        cases = ex + cases
+        out.set("exhaustive_universe", udesc)
+        out.set("exhaustive_cases", len(ex))
         if replay:
             cases = [cases[json.load(open(replay))["record"]["case_index"]]]
         recs = [run_case(c, i) for i, c in enumerate(cases)]
